@@ -379,6 +379,55 @@ def list_exports_are_snapshots(g):
 EXTRA_BASELINE = {}
 
 
+def transplants_do_not_alias(pl, rng):
+    """Nodes and edges handed out by one graph are given to ANOTHER graph (add_node(node=...), add_edge(Node, Node),
+    add_edge(edge=...), add_edges_from with Node objects), to a graph of the same class and to a time-series graph; afterwards
+    changing a nested metadata value on either side must not show on the other side (two graphs never share a container)."""
+    from cai_causal_graph.graph_components import Node
+    problems = []
+    names = pl.get_node_names()
+    edges = pl.get_edges()
+    for cls in (CausalGraph, TimeSeriesCausalGraph):
+        for form in ('node', 'ends', 'edge'):
+            tgt = cls()
+            try:
+                if form == 'node':
+                    for nm in names:
+                        tgt.add_node(node=pl.get_node(nm))
+                elif form == 'ends':
+                    if not edges:
+                        continue
+                    for e in edges:
+                        tgt.add_edge(pl.get_node(e.source.identifier), pl.get_node(e.destination.identifier), edge_type=e.get_edge_type())
+                else:
+                    if not edges:
+                        continue
+                    for e in edges:
+                        tgt.add_edge(edge=e)
+            except Exception:  # noqa: BLE001  (e.g. a name the time-series class cannot parse)
+                continue
+            before_src = snapshot(pl)
+            for lab, m in graph_holders(tgt):
+                mutate_nested(m)
+                m['MUT'] = 1
+            if snapshot(pl) != before_src:
+                problems.append(f'{cls.__name__}: nodes / edges of another graph added through {form}: changing the new graph\'s metadata changed the source graph')
+                return problems
+            before_tgt = snapshot(tgt)
+            pl2 = pl.copy()
+            for lab, m in graph_holders(pl):
+                mutate_nested(m)
+                m['LATER'] = 1
+            changed = snapshot(tgt) != before_tgt
+            # restore the source for the next round
+            pl._nodes_by_identifier, pl._edges_by_source, pl._edges_by_destination, pl.meta = pl2._nodes_by_identifier, pl2._edges_by_source, pl2._edges_by_destination, pl2.meta
+            pl._reset_cached_attributes()
+            if changed:
+                problems.append(f'{cls.__name__}: nodes / edges of another graph added through {form}: a later change to the source graph reached the new graph')
+                return problems
+    return problems
+
+
 def check(run, tier, seed):
     rng = random.Random(seed)
     n = 12 if tier == 'quick' else 120
@@ -395,6 +444,11 @@ def check(run, tier, seed):
                 except Exception as e:  # noqa: BLE001
                     raise RuntimeError(f'{name} raised {type(e).__name__}: {e}') from e
                 measured.setdefault(name, set()).add(lv)
+        ts3, pl3 = make_graphs(rng)
+        for why in transplants_do_not_alias(pl3, rng):
+            if viol < 3:
+                viol += 1
+                run.violation(dict(operation='transplant', why=why, seed=seed, iteration=it), note=why)
         for gx in (ts, pl):
             for why in list_exports_are_snapshots(gx):
                 if viol < 3:
@@ -457,6 +511,15 @@ def replay(run, path):
     c = json.loads(open(path).read())
     rng = random.Random(c.get('seed', 0))
     ok = True
+    if c.get('operation') == 'transplant':
+        for it in range(40):
+            ts, pl = make_graphs(rng)
+            for why in transplants_do_not_alias(pl, rng):
+                run.violation(dict(c, why=why), note=why)
+                print('replayed', path, 'violations', len(run.violations))
+                return 1
+        print('replayed', path, 'violations', 0)
+        return 0
     if c.get('operation') == 'list export':
         for it in range(40):
             ts, pl = make_graphs(rng)
